@@ -14,13 +14,15 @@ import (
 func init() {
 	register(&Prop{
 		ID:          "C05",
-		Explanation: "Decides the wiring that binds token response to authorization request. Nonce: on every saving path of the callback csrf.SetSessionNonce(session) on the loaded CSRF cookie precedes provider.ValidateSession(session)==true; OIDCProvider.ValidateSession returns true only with Verifier.Verify(s.IDToken) ok and (SkipNonce or checkNonce(s)==nil); checkNonce returns nil only after s.CheckNonce(value extracted from the \"nonce\" claim of s.IDToken)==true; SessionState.CheckNonce and encryption.CheckNonce compare the hash of the session nonce with hmac.Equal; every ValidateSession override of an OIDC-embedding provider delegates to it. PKCE: with a challenge method configured the verifier given to NewCSRF is the fresh result of GenerateCodeVerifierString(n), 32<=n<=96, unpadded URL-safe base64 of n crypto/rand bytes; its only other use is GenerateCodeChallenge(method, verifier) whose result is the code_challenge parameter; the verifier redeemed is GetCodeVerifier() of the loaded CSRF cookie, handed unchanged to provider.Redeem, and every Redeem implementation sends it as code_verifier or delegates; the login URL receives only HashOAuthState()/HashOIDCNonce(); the raw nonce/verifier fields have a closed reader set; the PKCE method in force (ProviderData.CodeChallengeMethod) is written only from the operator's option. Added during the build: the challenge method sent and the one used to derive the challenge come from the same configuration value (R7). Round 3: the legacy conversion lets force-code-challenge-method alone select the method (R8); a Redeem implementation's verifier flows only into the code_verifier parameter and the parameter set carrying it is used only through url.Values methods (R9). Round 4: the structured configuration's providers reach Options.Providers as written and the legacy skip-nonce flag maps to the skip-nonce option (R10). Round 5: in every function that adds code_verifier to the token request, each error-free return on which the verifier is not known to be empty has passed the add (under R9; shared with C03.R8). Round 6: the Set-Cookie lines queued on a response, the CSRF cookie's expiry among them, are never deleted or reassigned by hand (R11, shared with C18.R1). Round 7: request handling keeps no state of its own between requests — no store, map update, in-place builtin, atomic/sync.Map write or pointer-receiver library call (singleflight, caches) reached from ServeHTTP targets a package-level variable, an object built at start-up, or a constructor variable captured by the handler it returned, declared in the packages implementing this property (RS; a class-wide who-may-write rule with zero instances today: a correct memoisation would be reported until reviewed). Round 8: NewCSRF hands out a CSRF object only where every encryption.Nonce call of the path had its own error tested nil (R12).",
+		Explanation: "Decides the wiring that binds token response to authorization request. Nonce: on every saving path of the callback csrf.SetSessionNonce(session) on the loaded CSRF cookie precedes provider.ValidateSession(session)==true; OIDCProvider.ValidateSession returns true only with Verifier.Verify(s.IDToken) ok and (SkipNonce or checkNonce(s)==nil); checkNonce returns nil only after s.CheckNonce(value extracted from the \"nonce\" claim of s.IDToken)==true; SessionState.CheckNonce and encryption.CheckNonce compare the hash of the session nonce with hmac.Equal; every ValidateSession override of an OIDC-embedding provider delegates to it. PKCE: with a challenge method configured the verifier given to NewCSRF is the fresh result of GenerateCodeVerifierString(n), 32<=n<=96, unpadded URL-safe base64 of n crypto/rand bytes; its only other use is GenerateCodeChallenge(method, verifier) whose result is the code_challenge parameter; the verifier redeemed is GetCodeVerifier() of the loaded CSRF cookie, handed unchanged to provider.Redeem, and every Redeem implementation sends it as code_verifier or delegates; the login URL receives only HashOAuthState()/HashOIDCNonce(); the raw nonce/verifier fields have a closed reader set; the PKCE method in force (ProviderData.CodeChallengeMethod) is written only from the operator's option. Added during the build: the challenge method sent and the one used to derive the challenge come from the same configuration value (R7). Round 3: the legacy conversion lets force-code-challenge-method alone select the method (R8); a Redeem implementation's verifier flows only into the code_verifier parameter and the parameter set carrying it is used only through url.Values methods (R9). Round 4: the structured configuration's providers reach Options.Providers as written and the legacy skip-nonce flag maps to the skip-nonce option (R10). Round 5: in every function that adds code_verifier to the token request, each error-free return on which the verifier is not known to be empty has passed the add (under R9; shared with C03.R8). Round 6: the Set-Cookie lines queued on a response, the CSRF cookie's expiry among them, are never deleted or reassigned by hand (R11, shared with C18.R1). Round 7: request handling keeps no state of its own between requests — no store, map update, in-place builtin, atomic/sync.Map write or pointer-receiver library call (singleflight, caches) reached from ServeHTTP targets a package-level variable, an object built at start-up, or a constructor variable captured by the handler it returned, declared in the packages implementing this property (RS; a class-wide who-may-write rule with zero instances today: a correct memoisation would be reported until reviewed). Round 8: NewCSRF hands out a CSRF object only where every encryption.Nonce call of the path had its own error tested nil (R12). Round 8 (class-wide, P12): in the packages implementing this property every named error result that is used at all is examined — compared with nil, returned, stored or handed to a non-formatting function — unless the code validates the value result instead (RE; zero instances today).",
 		NotDecided:  "identity-provider behaviour; 'never repeated' beyond fresh-per-call crypto/rand (entropy trusted); msgpack reflection reads of the csrf fields (serialisation into the encrypted cookie) are not modelled as reads.",
 		Run:         runC05,
 	})
 }
 
 func runC05(c *Ctx) {
+	c.R.Rule("RE-errors-examined", "in the packages implementing this property every named error result that is used at all is examined, or the value is validated instead (P12, class-wide, round 8)", 1)
+	runErrorsExamined(c, "RE-errors-examined", "pkg/cookies", "pkg/encryption")
 	c.R.Rule("RS-no-request-time-state", "request handling writes no state that outlives the request (package-level variables, objects built at start-up, constructor variables captured by handlers) declared in the packages implementing this property", 1)
 	runStateless(c, "RS-no-request-time-state", "pkg/cookies", "providers", "pkg/providers")
 	r := c.R
